@@ -62,24 +62,42 @@ Fixpoint pick (s : gst) (qs : queues) (ord : list Z) (seen : list Z) (w : nat) :
            end
   end.
 
+(* what the replay remembers besides the state (not part of the model): for every registration, in the order in which the
+   model registers them (= the ghost id), which event did it (thread, number of events the thread had left); and, for every
+   continuation the model submits although the count was not zero since its registration (Group.set_fire: zreg <= id, the
+   `early` flag), the registration event of that notification *)
+Definition obsacc := (list (Z * Z) * list Z)%type.
+Definition observe (s : gst) (t rem : Z) (acc : obsacc) : obsacc :=
+  match pcs s t with
+  | PNfPush => (fst acc ++ [(t, rem)], snd acc)
+  | PFire _ _ =>
+      match held s t with
+      | (i, _) :: _ => if zreg s <=? i then (fst acc, snd acc ++ (let '(a, b) := nth (Z.to_nat i) (fst acc) (0, 0) in [a; b])) else acc
+      | [] => acc
+      end
+  | _ => acc
+  end.
+
 (* chk: a boolean predicate evaluated on every `period`-th state and on the last one; bad = number of steps done when it
    first failed, or -1 *)
 Section Sched.
   Variable chk : gst -> bool.
   Variable period : Z.
-  Fixpoint sched (fuel : nat) (w : nat) (s : gst) (qs : queues) (ord : list Z) (done bad : Z) : gst * queues * Z * Z * list Z :=
+  Fixpoint sched (fuel : nat) (w : nat) (s : gst) (qs : queues) (ord : list Z) (done bad : Z) (acc : obsacc)
+    : gst * queues * Z * Z * list Z * obsacc :=
     match fuel with
-    | O => (s, qs, done, bad, ord)
+    | O => (s, qs, done, bad, ord, acc)
     | S f =>
         match ord with
-        | [] => (s, qs, done, bad, [])
+        | [] => (s, qs, done, bad, [], acc)
         | _ => match pick s qs ord [] w with
                | Some (t, s') =>
                    (* nested ifs: vm_compute evaluates the arguments of && eagerly, chk must only run on the chosen states *)
                    let bad' := if bad =? -1 then (if (done + 1) mod period =? 0 then (if chk s' then bad else done + 1) else bad)
                                else bad in
                    sched f w s' (pop_q t qs) (remove_first t ord) (done + 1) bad'
-               | None => (s, qs, done, bad, ord)
+                         (observe s t (Z.of_nat (length (lookup t qs))) acc)
+               | None => (s, qs, done, bad, ord, acc)
                end
         end
     end.
@@ -100,7 +118,7 @@ Definition all_fired (s : gst) : bool := forallb (fun i => fcnt s i =? 1) (zrang
 (* the window is the whole preferred order: every thread's next event is considered, earliest stamp first *)
 Definition replay (chk : list Z -> gst -> bool) (period : Z) (qs : queues) (ord : list Z) : list Z :=
   let tids := map fst qs in
-  let '(s, qs', done, bad, rest) := sched (chk tids) period (S (length ord)) (length ord) init_state qs ord 0 (-1) in
+  let '(s, qs', done, bad, rest, acc) := sched (chk tids) period (S (length ord)) (length ord) init_state qs ord 0 (-1) ([], []) in
   [done; Z.of_nat (length rest); word s; gfull s; outst s; nreg s; Z.of_nat (length (nq s)); b2z (all_idle s tids);
    b2z (none_asleep s tids); b2z (all_fired s); b2z (early s); bad; b2z (chk tids s);
-   match rest with t :: _ => t | [] => -1 end] ++ map (fun q => Z.of_nat (length (snd q))) qs'.
+   match rest with t :: _ => t | [] => -1 end] ++ map (fun q => Z.of_nat (length (snd q))) qs' ++ [-9999] ++ snd acc.
